@@ -5,10 +5,12 @@ import AioProps.C07Lemmas
 
 All theorems quantify over **every label sequence** `ls` (every interleaving, at await
 granularity, of spawns, single event-loop callbacks, connection attempts succeeding or failing,
-cancellations, connect timeouts, releases, lost idle connections, connector close and shuffle
-results) from the initial state of any number of tasks with any keys and any limits.
+cancellations, connect timeouts, releases, lost idle connections, connector close, shuffle
+results and returns of trace callbacks) from the initial state of any number of tasks with any
+keys, any limits and any set `mask` of trace hooks whose callbacks really suspend
+(on_connection_reuseconn / queued_start / queued_end / create_start / create_end).
 
-They are about `step Fixes.all`, the model of `BaseConnector` with the four repairs switched on
+They are about `step Fixes.all`, the model of `BaseConnector` with the five repairs switched on
 (AioModel/C07.lean; the repaired code was checked to conform to this model by the same trace
 conformance run as the unrepaired one).  For `Fixes.none` — the code as it is — the four
 `*_unfixed` theorems are kernel-checked counterexamples.
@@ -18,21 +20,21 @@ namespace Aio.C07
 /-- **limit_inv.** After every label sequence the number of entries of `_acquired` (connections in
 use + placeholders of connections being established) is at most `limit` (0 = unlimited) and, for
 every key, the number of entries of `_acquired_per_host[key]` is at most `limit_per_host`. -/
-theorem limit_inv (limit lph : Nat) (keys : List Key) (ls : List Label) :
-    let s := run Fixes.all (init limit lph keys) ls
+theorem limit_inv (limit lph mask : Nat) (keys : List Key) (ls : List Label) :
+    let s := run Fixes.all (init limit lph keys mask) ls
     (s.limit = 0 ∨ s.acquired.length ≤ s.limit) ∧ (s.lph = 0 ∨ ∀ k, hostCount s k ≤ s.lph) := by
-  have h := (inv_run (inv_init limit lph keys).1 (inv_init limit lph keys).2 ls).1
+  have h := (inv_run (inv_init limit lph keys mask).1 (inv_init limit lph keys mask).2 ls).1
   exact ⟨h.lim, h.limh⟩
 
 /-- **attempts are counted.** While the connector is open, every task that is establishing a connection
 has its placeholder in `_acquired` (and in `_acquired_per_host` under its key when a per-host limit
 is set): the count bounded by `limit_inv` really includes every connection attempt in progress. -/
-theorem attempts_counted (limit lph : Nat) (keys : List Key) (ls : List Label) (t : Tid) (r : Option Bool) :
-    let s := run Fixes.all (init limit lph keys) ls
+theorem attempts_counted (limit lph mask : Nat) (keys : List Key) (ls : List Label) (t : Tid) (r : Option Bool) :
+    let s := run Fixes.all (init limit lph keys mask) ls
     s.closed = false → pcOf s t = some (.creating r) →
       Slot.ph t ∈ s.acquired ∧ (s.lph ≠ 0 → (keyOf s t, Slot.ph t) ∈ s.perHost) := by
   intro s hc hp
-  exact (inv_run (inv_init limit lph keys).1 (inv_init limit lph keys).2 ls).1.ph_present hc t r hp
+  exact (inv_run (inv_init limit lph keys mask).1 (inv_init limit lph keys mask).2 ls).1.ph_present hc t r hp
 
 /-- a request is live while it is queued to start, waits for a slot, establishes or holds a connection -/
 def Pc.live : Pc → Prop
@@ -42,11 +44,11 @@ def Pc.live : Pc → Prop
 /-- **no_leak.** In any reachable state in which no request is live (every task has not started, has
 released its connection, or has failed / was cancelled / timed out) nothing remains counted:
 `_acquired`, `_acquired_per_host` and the waiter queues are empty.  (Quiescence is not even needed.) -/
-theorem no_leak (limit lph : Nat) (keys : List Key) (ls : List Label) :
-    let s := run Fixes.all (init limit lph keys) ls
+theorem no_leak (limit lph mask : Nat) (keys : List Key) (ls : List Label) :
+    let s := run Fixes.all (init limit lph keys mask) ls
     (∀ t pc, pcOf s t = some pc → ¬ pc.live) → s.acquired = [] ∧ s.perHost = [] ∧ s.waitq = [] := by
   intro s hdead
-  have h := inv_run (inv_init limit lph keys).1 (inv_init limit lph keys).2 ls
+  have h := inv_run (inv_init limit lph keys mask).1 (inv_init limit lph keys mask).2 ls
   refine ⟨?_, ?_, ?_⟩
   · apply List.eq_nil_iff_forall_not_mem.mpr
     intro sl hm
@@ -80,28 +82,31 @@ example :
   | n + 2, h' => simp at h'
 
 /-- **close_closes_all.** In every reachable state in which the connector has been closed: every connection
-ever created (before or after the close) is closed, nothing is counted in `_acquired` /
+ever created (before or after the close) is closed — except one that `_create_connection` has just returned and
+whose on_connection_create_end callback has not returned yet (it is listed in the ghost `pendingNew`; `connect()`
+closes it as soon as that callback returns or is cancelled) —, nothing is counted in `_acquired` /
 `_acquired_per_host`, the idle pool is empty and no waiter future is queued any more (close cancelled
 every one of them, and nobody can queue on a closed connector). -/
-theorem close_closes_all (limit lph : Nat) (keys : List Key) (ls : List Label) :
-    let s := run Fixes.all (init limit lph keys) ls
+theorem close_closes_all (limit lph mask : Nat) (keys : List Key) (ls : List Label) :
+    let s := run Fixes.all (init limit lph keys mask) ls
     s.closed = true →
-      (∀ (c : Cid) (x : Conn), s.conns[c]? = some x → x.isOpen = false)
+      (∀ (c : Cid) (x : Conn), s.conns[c]? = some x → c ∉ s.pendingNew → x.isOpen = false)
       ∧ s.acquired = [] ∧ s.perHost = [] ∧ s.idle = [] ∧ s.waitq = [] := by
   intro s hc
-  have hi := inv_run (inv_init limit lph keys).1 (inv_init limit lph keys).2 ls
-  have ho := oinv_run (inv_init limit lph keys).1 (inv_init limit lph keys).2
-    (oinv_init limit lph keys).1 (oinv_init limit lph keys).2 ls
+  have hi := inv_run (inv_init limit lph keys mask).1 (inv_init limit lph keys mask).2 ls
+  have ho := oinv_run (inv_init limit lph keys mask).1 (inv_init limit lph keys mask).2
+    (oinv_init limit lph keys mask).1 (oinv_init limit lph keys mask).2 ls
   obtain ⟨e1, e2, e3⟩ := hi.1.closed_empty hc
   refine ⟨?_, e1, e2, e3, ho.2 hc⟩
-  intro c x hx
+  intro c x hx hp
   cases hopen : x.isOpen
   · rfl
   · exfalso
     have : connOpen s c = true := by simp [connOpen, hx, hopen]
-    rcases ho.1 c this with h1 | h1
+    rcases ho.1 c this with h1 | h1 | h1
     · rw [e3] at h1; cases h1
     · rw [e1] at h1; cases h1
+    · exact hp h1
 
 /-- `close_closes_all` is not vacuous: a connector closed with one connection in use, one pooled, one attempt
 in progress (which then succeeds) and one waiter -/
@@ -116,7 +121,7 @@ example :
 **no_forgotten_waiter** (full statement, NOT proved):
 
   theorem no_forgotten_waiter (limit lph) (keys) (ls) (t) :
-      let s := run Fixes.all (init limit lph keys) ls
+      let s := run Fixes.all (init limit lph keys mask) ls
       s.ready = [] → t ∈ s.waitq → futOf s t = .pending → hasCap s (keyOf s t) = false
 
 i.e. in every reachable quiescent state no live waiter has capacity for its key.  It is false for
@@ -132,11 +137,13 @@ the real (repaired) connector for N ≤ 3 tasks plus sampled larger runs, which 
 /-- **the wake-up step** (`_release_waiter`), for every state whatsoever and every shuffle result: if some queued
 waiter `t` is live (its future is pending), its key is one of the dict keys of `_waiters`, and there is capacity
 for its key, then `_release_waiter` wakes exactly one waiter `u` — `u` was queued, live, has capacity for its own
-key; its future is now set and its wake-up is appended to the loop's ready queue. -/
+key; its future is now set and — unless `u` is still inside its on_connection_queued_start callback, in which case it
+finds the future set when that callback returns — its wake-up is appended to the loop's ready queue. -/
 theorem release_waiter_wakes (s : St) (t : Tid)
     (hk : keyOf s t ∈ s.wkeys) (hcap : hasCap s (keyOf s t) = true) (hw : t ∈ s.waitq) (hf : futOf s t = .pending) :
     ∃ u, u ∈ s.waitq ∧ futOf s u = .pending ∧ hasCap s (keyOf s u) = true
-      ∧ (releaseWaiter s).ready = s.ready ++ [u] ∧ futOf (releaseWaiter s) u = .woken :=
+      ∧ (releaseWaiter s).ready = (if (trOf s u).isNone then s.ready ++ [u] else s.ready)
+      ∧ futOf (releaseWaiter s) u = .woken :=
   releaseWaiterKeys_wakes _ s t (order_mem hk) hcap hw hf
 
 /-- **no_forgotten_waiter_partial.** Whenever a slot is given back on an open connector (`_release_acquired`: a
@@ -148,7 +155,8 @@ theorem no_forgotten_waiter_partial (s : St) (k : Key) (sl : Slot) (t : Tid) (ho
     (hk : keyOf s t ∈ s.wkeys) (hw : t ∈ s.waitq) (hf : futOf s t = .pending)
     (hcap : hasCap (dropSlot s k sl) (keyOf s t) = true) :
     ∃ u, u ∈ s.waitq ∧ futOf s u = .pending ∧ hasCap (dropSlot s k sl) (keyOf s u) = true
-      ∧ (releaseAcquired s k sl).ready = s.ready ++ [u] ∧ futOf (releaseAcquired s k sl) u = .woken := by
+      ∧ (releaseAcquired s k sl).ready = (if (trOf s u).isNone then s.ready ++ [u] else s.ready)
+      ∧ futOf (releaseAcquired s k sl) u = .woken := by
   rw [releaseAcquired_eq]; simp only [hopen, Bool.false_eq_true, if_false]
   exact release_waiter_wakes (dropSlot s k sl) t hk hcap hw hf
 
@@ -210,5 +218,25 @@ theorem after_close_leak_unfixed :
     ∧ (let s := run Fixes.all (init 1 0 [0, 0]) afterCloseLabels
        s.acquired = [] ∧ pcOf s 0 = some (.failed .closedErr) ∧ pcOf s 1 = some (.failed .closedErr)) := by
   decide +kernel
+
+/-- cancellation inside a trace callback (found when the trace hooks were added to the model): `limit = 1`, the
+on_connection_reuseconn callback suspends.  Task 0 connects and releases its connection to the pool; task 1 takes
+it from the pool and is cancelled while its reuseconn callback runs: `_get` gives the slot back
+(`_release_acquired`) but the connection itself is neither pooled nor closed, so a later `close()` does not close
+it.  (The same happens to a freshly created connection when the task is cancelled inside on_connection_create_end.)
+With the repair the orphan is closed at once. -/
+def traceOrphanLabels : List Label :=
+  [.spawn 0, .tick, .createDone 0 true, .tick, .release 0 true, .spawn 1, .tick, .cancel 1, .tick, .close]
+theorem trace_orphan_unfixed :
+    (let s := run Fixes.none (init 1 0 [0, 0] 1) traceOrphanLabels
+     s.closed = true ∧ s.ready = [] ∧ s.pendingNew = [] ∧ connOpen s 0 = true ∧ pcOf s 1 = some (.failed .cancelled))
+    ∧ (let s := run Fixes.all (init 1 0 [0, 0] 1) traceOrphanLabels
+       s.closed = true ∧ connOpen s 0 = false) := by decide +kernel
+
+/-- the theorems above are not vacuous for traced runs: three requests, one slot, on_connection_create_start
+suspends — exactly one request holds the placeholder while its callback runs, the other two are queued -/
+example :
+    let s := run Fixes.all (init 1 0 [0, 0, 0] 8) [.spawn 0, .spawn 1, .spawn 2, .tick, .tick, .tick]
+    s.acquired = [.ph 0] ∧ s.waitq = [1, 2] ∧ trOf s 0 = some (.cstart, false) := by decide +kernel
 
 end Aio.C07
